@@ -19,9 +19,11 @@ import common
 import omen_gen_tie
 
 GROUPS = {
-    "omen": ("gen/Loader2_gen.v", "theories/Loader2GenProofs.v", "theories/Loader2OmenFacts.v"),
-    "grammar": ("gen/Loader2Grammar_gen.v", "theories/Loader2GrammarGenProofs.v", None),
+    "omen": ("gen/Loader2_gen.v", "theories/Loader2GenProofs.v", ["theories/Loader2OmenFacts.v"]),
+    "grammar": ("gen/Loader2Grammar_gen.v", "theories/Loader2GrammarGenProofs.v", ["theories/Loader2GrammarFacts.v"]),
 }
+# the transported theorems one property needs beyond those of its groups
+EXTRA_FACTS = {"C07": {"omen": ["theories/Loader2RoundTrip.v"]}}
 BY_PROP = {"C07": ("omen", "grammar"), "C10": ("omen",), "C11": ("omen",), "C04": ("grammar",)}
 
 TRUSTED = ("second tie (translator): harness/translate_loader2.py (ast -> Gallina, fail closed; accepted subset and what it does "
@@ -34,6 +36,26 @@ TRUSTED = ("second tie (translator): harness/translate_loader2.py (ast -> Gallin
            "its arguments before raising is dropped")
 
 
+def _facts_status(g, facts, proofs):
+    vo = os.path.join(common.COQ, facts[:-2] + ".vo")
+    src = os.path.join(common.COQ, facts)
+    pvo = os.path.join(common.COQ, proofs[:-2] + ".vo")
+    name = "loader2:translator-tie:%s:facts (%s)" % (g, facts)
+    if os.path.exists(vo) and os.path.getmtime(vo) >= os.path.getmtime(src) and os.path.getmtime(vo) >= os.path.getmtime(pvo):
+        return (name, True, "")
+    fd = common._lock()
+    try:
+        e = omen_gen_tie._first_error(facts)
+    finally:
+        os.close(fd)
+    if e is None:
+        return (name, True, "")
+    where = e[1]
+    lemma = omen_gen_tie._enclosing(where[0], where[1]) if where else "?"
+    return (name, False, "the theorems over the translated readers no longer check: %s (%s): %s"
+            % (lemma, facts, " ".join(e[0].split())[:500]))
+
+
 def obligations(prop):
     """-> [(name, ok, detail)] for the `corr` list of C07 / C10 / C11 / C04"""
     out = []
@@ -41,26 +63,9 @@ def obligations(prop):
         gen, proofs, facts = GROUPS[g]
         st = omen_gen_tie.status("loader2:translator-tie:%s (translated readers = models, %s)" % (g, proofs), gen, proofs)
         out.append(st)
-        if not st[1] or facts is None:
+        if not st[1]:
             continue
         # the transported theorems: only looked at when the equalities hold
-        vo = os.path.join(common.COQ, facts[:-2] + ".vo")
-        src = os.path.join(common.COQ, facts)
-        pvo = os.path.join(common.COQ, proofs[:-2] + ".vo")
-        name = "loader2:translator-tie:%s:facts (%s)" % (g, facts)
-        if os.path.exists(vo) and os.path.getmtime(vo) >= os.path.getmtime(src) and os.path.getmtime(vo) >= os.path.getmtime(pvo):
-            out.append((name, True, ""))
-            continue
-        fd = common._lock()
-        try:
-            e = omen_gen_tie._first_error(facts)
-        finally:
-            os.close(fd)
-        if e is None:
-            out.append((name, True, ""))
-        else:
-            where = e[1]
-            lemma = omen_gen_tie._enclosing(where[0], where[1]) if where else "?"
-            out.append((name, False, "the theorems over the translated readers no longer check: %s (%s): %s"
-                        % (lemma, facts, " ".join(e[0].split())[:500])))
+        for f in list(facts) + EXTRA_FACTS.get(prop, {}).get(g, []):
+            out.append(_facts_status(g, f, proofs))
     return out
